@@ -284,6 +284,12 @@ def gen_scenario(rng, nprocs, idx, tier):
     sp = Spec(fmt)
     kind = rng.choice(['redef', 'redef', 'redef', 'redef', 'abort-redef', 'abort-redef', 'abort-create'])
     sc.kinds.add(kind)
+    # gadget (seed C03-5): free space in front of the record section (large v_minfree / r_align at the first
+    # enddef, tight header extent) absorbs a header growth, so begin_var moves while begin_rec does not, and a
+    # record variable added in the same redefinition changes the record size: the records must still be re-spaced
+    slack = (kind == 'redef' and rng.chance(1, 4))
+    if slack:
+        sc.kinds.add('slack-absorbs-header-growth')
     unit = rng.choice([1, 2, 3, 5, 7, 16, 64, 67108864])
     sc.op('moveunit %d' % unit)
     sc.op('create %d' % fmt, 'ok')
@@ -293,6 +299,8 @@ def gen_scenario(rng, nprocs, idx, tier):
         sc.op('setfill 1', 'setfill'); sp.setfill(1)
         sc.kinds.add('create-dataset-fill')
     shape_kind = rng.choice(['mixed', 'mixed', 'mixed', 'one-rec', 'no-rec', 'only-rec'])
+    if slack:
+        shape_kind = rng.choice(['one-rec', 'only-rec'])
     sc.kinds.add('schema-' + shape_kind)
     if shape_kind == 'no-rec':
         gen_schema(rng, sc, sp, rng.range(1, 3), rng.range(1, 4), allow_unlim=False)
@@ -324,10 +332,26 @@ def gen_scenario(rng, nprocs, idx, tier):
         sc.op('abort', 'ok')
         sc.op('exists', 'exists', 0)
         return sc, sp
-    gen_enddef(rng, sc)
+    if slack:
+        vm, ra = rng.choice([(600, 4), (2000, 4), (0, 2048), (0, 4096), (1200, 512)])
+        sc.op('enddef4 0 4 %d %d' % (vm, ra), 'ok')
+        sc.kinds.add('enddef-align')
+    else:
+        gen_enddef(rng, sc)
     indep = False
-    if rng.chance(7, 8):
+    if slack or rng.chance(7, 8):
         indep = gen_writes(rng, sc, sp, list(range(len(sp.vars))), nprocs)
+        if slack:
+            # at least three whole records exist before the redefinition
+            if indep:
+                sc.op('coll', 'ok'); indep = False
+            v = [x for x in range(len(sp.vars)) if sp.is_rec(x)][0]
+            d = sp.vars[v][1]
+            start = [0] * len(d)
+            count = [3] + [sp.dims[di] for di in d[1:]]
+            sd = rng.below(1000000)
+            sc.op('cput %d %d %s %s' % (v, sd, ' '.join(map(str, start)), ' '.join(map(str, count))), 'ok')
+            sp.put(v, sd, start, count)
     else:
         sc.kinds.add('numrecs-0')
     nredef = rng.choice([1, 1, 2, 3]) if kind == 'redef' else rng.choice([1, 2])
@@ -344,7 +368,10 @@ def gen_scenario(rng, nprocs, idx, tier):
         sc.op('snap', 'snap', 'before')
         nold = len(sp.vars)
         deltas = []
-        if rng.chance(1, 2):
+        if slack:
+            n = rng.range(30, 200)
+            emit_att(sc, sp, -1, n); deltas.append('att-medium')
+        elif rng.chance(1, 2):
             n = rng.choice([rng.range(1, 20), rng.range(300, 2500)])
             emit_att(sc, sp, -1, n); deltas.append('att-small' if n <= 20 else 'att-large')
         if rng.chance(1, 4) and sp.vars:
@@ -357,10 +384,12 @@ def gen_scenario(rng, nprocs, idx, tier):
             sc.op('setfill 1', 'setfill'); sp.setfill(1)
         if fillmode == 'dataset-off':
             sc.op('setfill 0', 'setfill'); sp.setfill(0)
-        if rng.chance(3, 4):
+        if slack or rng.chance(3, 4):
             types = TYPES_CDF5 if fmt == 5 else TYPES_CLASSIC
-            for _ in range(rng.range(1, 3)):
+            for k_new in range(1 if slack else rng.range(1, 3)):
                 which = rng.choice(['fixed', 'rec', 'rec', 'any'])
+                if slack:
+                    which = 'rec'
                 if which == 'rec' and not sp.has_unlim():
                     sp.dims.append(0); sc.op('dim 0', 'ok')
                 fixed_dims = [i for i, l in enumerate(sp.dims) if l != 0]
@@ -411,7 +440,10 @@ def gen_scenario(rng, nprocs, idx, tier):
             sc.op('close', 'ok')
             return sc, sp
         sc.op('planreset')
-        gen_enddef(rng, sc)
+        if slack:
+            sc.op(rng.choice(['enddef', 'enddef4 0 4 0 4']), 'ok')
+        else:
+            gen_enddef(rng, sc)
         sc.op('plan', 'plan', (nold, list(sp.nofill)))
         sc.op('layout', 'layout', ('new', nold))
         sc.op('snap', 'snap', 'after')
